@@ -224,7 +224,9 @@ nni_msgq_aio_put(nni_msgq *mq, nni_aio *aio)
 	// no room, nobody is waiting to receive, then report NNG_ETIMEDOUT.
 	// (Only start the aio if it actually has to wait, otherwise a
 	// zero timeout would fail a put that can complete right now.)
-	if (nni_list_empty(&mq->mq_aio_getq) && (mq->mq_len >= mq->mq_cap) &&
+	if ((!nni_list_empty(&mq->mq_aio_putq) ||
+	        (nni_list_empty(&mq->mq_aio_getq) &&
+	            (mq->mq_len >= mq->mq_cap))) &&
 	    (!nni_aio_start(aio, nni_msgq_cancel, mq))) {
 		nni_mtx_unlock(&mq->mq_lock);
 		return;
@@ -241,7 +243,8 @@ nni_msgq_aio_get(nni_msgq *mq, nni_aio *aio)
 {
 	nni_mtx_lock(&mq->mq_lock);
 	// Only start the aio if it has to wait (see nni_msgq_aio_put).
-	if ((mq->mq_len == 0) && nni_list_empty(&mq->mq_aio_putq) &&
+	if ((!nni_list_empty(&mq->mq_aio_getq) ||
+	        ((mq->mq_len == 0) && nni_list_empty(&mq->mq_aio_putq))) &&
 	    (!nni_aio_start(aio, nni_msgq_cancel, mq))) {
 		nni_mtx_unlock(&mq->mq_lock);
 		return;
